@@ -146,7 +146,7 @@ func buildKernels4(repo string, specs3, specs4 []k3spec) (string, []string) {
 	g := &g3{repo: repo, imp: newSrcImporter(), pkgs: map[string]*pkgInfo{}, funcs: map[string]*fsig3{},
 		declSeen: map[string]bool{}, sentSeen: map[string]bool{}, inProg: map[string]bool{}, sumAlts: map[string][]alt3{},
 		consts: &tableSet{defs: map[string]string{}, lens: map[string]int{}}}
-	defer func() { curMode4 = false }()
+	defer func() { curMode4, curHeap4 = false, false }()
 	var errs []string
 	g.legacy, g.legDecl = legacySigs(repo)
 	var specs []k3spec
@@ -172,7 +172,7 @@ func buildKernels4(repo string, specs3, specs4 []k3spec) (string, []string) {
 			errs = append(errs, fmt.Sprintf("%s: function %s%s not found in package %s", filepath.Join(repo, k.pkg), k.recv, "."+k.fn, p.name))
 			continue
 		}
-		if decls[k3key(k)] != nil {
+		if decls[k3key(k)] != nil && !k.heap {
 			errs = append(errs, fmt.Sprintf("%s: listed twice", k.name))
 		}
 		decls[k3key(k)] = fn
@@ -195,7 +195,7 @@ func buildKernels4(repo string, specs3, specs4 []k3spec) (string, []string) {
 		p := g.pkgs[k.pkg]
 		c := &m3{ctx: &ctx{errShadowOK: true, p: p, fn: decls[k3key(k)], safeIdx: map[types.Object]int64{}, intrins: map[string]bool{}}, spec: k, g: g}
 		s, err := c.translate3()
-		curMode4 = false
+		curMode4, curHeap4 = false, false
 		if err != nil {
 			delete(g.funcs, k3key(k))
 			mode := "fourth mode"
